@@ -81,13 +81,25 @@ let exec toks =
           s_res s_n vv;
           s_res (fun x -> s_hr (hr_from x)) vv ] in
       String.concat " " (if n = 5 then base @ [ s_res s_n (evaluate_five_cards c ws) ] else base)
+  | "rankp" ->
+      let v = nums () in
+      let n = int_of_n (List.hd v) in
+      let ws = List.tl v in
+      let okp r = match r with Ok _ -> "ok" | Panic -> "P" | Diverge -> "DIVERGE" in
+      let hrv = hand_rank_value c ws in
+      let vv = hand_rank_value_validated c ws in
+      let base = [ okp hrv; okp hrv; okp (hrvh c ws); okp vv; okp vv ] in
+      let base = if n = 5 then base @ [ okp (evaluate_five_cards c ws) ] else base in
+      let base =
+        if n = 5 && List.mem N0 ws then base @ [ s_res s_n hrv; s_res (fun x -> s_hr (hr_from x)) hrv ] else base in
+      String.concat " " base
   | "fip" -> s_res s_n (find_in_products c (List.hd (nums ())))
   | "pred5" ->
       let ws = nums () in
       String.concat " "
         [ s_b (is_flush ws); s_b (is_straight ws); s_b (is_straight_flush ws); s_b (is_wheel ws);
           s_n (or_rank_bits ws); s_n (and_bits ws); s_n (or_bits ws); s_res s_n (multiply_primes c ws);
-          s_b (is_flush ws); s_n (or_rank_bits ws) ]
+          s_b (evaluate_is_flush ws); s_n (evaluate_or_rank_bits ws) ]
   | "sort" ->
       let ws = List.tl (nums ()) in
       Printf.sprintf "%s | %s" (s_words (sort_desc ws)) (s_words (sort_desc ws))
